@@ -220,6 +220,9 @@ func (vm *VM) Run(program *Program, env interface{}) (out interface{}, err error
 			min := toInt(a)
 			max := toInt(b)
 			size := max - min + 1
+			if size < 0 {
+				size = 0
+			}
 			if vm.memory+size >= vm.limit {
 				panic("memory budget exceeded")
 			}
